@@ -119,6 +119,27 @@ Theorem C09_creator_exactly_once :
 Proof. exact (creator_exactly_once code_shape C09_source_shape). Qed.
 Print Assumptions C09_creator_exactly_once.
 
+(* Several daemons in one process (every event names its daemon): each daemon's tables, creator log and trace are
+   exactly those it would have if it were alone with its own events ... *)
+Theorem C09_daemons_independent :
+  forall (w : nat -> world) (modes : nat -> imode) (h : list (nat * event)) (d : nat),
+  mrun code_shape w modes h d = run_hist code_shape (w d) modes (proj d h) st0.
+Proof. exact (daemons_independent code_shape). Qed.
+Print Assumptions C09_daemons_independent.
+
+(* ... so 'single' is one instance PER DAEMON: all calls that a daemon serves for the class get the same instance,
+   and that instance was made by a creator invocation of this very daemon (never borrowed from another daemon). *)
+Theorem C09_single_per_daemon :
+  forall (w : nat -> world) (modes : nat -> imode) (h : list (nat * event)) (d c : nat),
+  modes c = MSingle ->
+  (forall k k' a b, In (Call k c, Served a) (snd (mrun code_shape w modes h d)) ->
+                    In (Call k' c, Served b) (snd (mrun code_shape w modes h d)) -> a = b) /\
+  (forall k a, In (Call k c, Served a) (snd (mrun code_shape w modes h d)) ->
+     nth_error (log (fst (mrun code_shape w modes h d))) (iid a) = Some (c, OMade (itruthy a) (ieqnone a)) /\
+     w d (iid a) c = OMade (itruthy a) (ieqnone a)).
+Proof. exact (single_per_daemon code_shape C09_source_shape). Qed.
+Print Assumptions C09_single_per_daemon.
+
 (* The shapes the property excludes are really wrong (witnesses replayed on the real code by the harness). *)
 Theorem C09_falsy_single_refuted :
   exists w modes h k k' c a b, modes c = MSingle /\
